@@ -271,7 +271,9 @@ def _judge(args):
                 cnt("C05_cases")
             # C19: adapters -- the whole await/pull/call/yield interleaving and the result
             if "C19" in want and tool in ADAPTERS:
-                e, g = tm.lazy_projection(exp_log), tm.lazy_projection(obs_log)
+                # ... including every await of a user awaitable (which one, and when)
+                keep = ("next", "pull", "call", "yield", "end", "raise", "return", "await")
+                e, g = [x for x in exp_log if x["ev"] in keep], [x for x in obs_log if x["ev"] in keep]
                 if fl["src"] == "list":   # pulls from a plain list are invisible
                     e = [x for x in e if x["ev"] != "pull"]
                     g = [x for x in g if x["ev"] != "pull"]
